@@ -301,10 +301,56 @@ func prelookupCase(g *Gen, i int, npk int, prop string) {
 		held[nm] = u2.Type(nm)
 		pre = append(pre, list(atom(nm.Package), atom(nm.Name)))
 	}
+	// functions, variables and constants that the program declares, looked up before the load as well
+	// (only declared ones: a name the load never reaches would stay in the universe as a marker)
+	type heldDecl struct {
+		nm   types.Name
+		kind string
+		obj  *types.Type
+	}
+	var heldDecls []heldDecl
+	for _, gp := range prog2 {
+		if !gp.Requested {
+			continue
+		}
+		for _, cand := range []struct{ kind, name string }{{"var", "V0"}, {"var", "V1"}, {"func", "Fn0"}, {"const", "C0"}, {"const", "C1"}} {
+			if !strings.Contains(gp.Src, "\n"+cand.kind+" "+cand.name+" ") && !strings.Contains(gp.Src, "\n"+cand.kind+" "+cand.name+"(") || g.Chance(0.5) {
+				continue
+			}
+			nm := types.Name{Package: gp.Path, Name: cand.name}
+			var obj *types.Type
+			switch cand.kind {
+			case "var":
+				obj = u2.Variable(nm)
+			case "func":
+				obj = u2.Function(nm)
+			default:
+				obj = u2.Constant(nm)
+			}
+			heldDecls = append(heldDecls, heldDecl{nm, cand.kind, obj})
+		}
+	}
 	if err := c06loadInto(g, i, prog2, &u2); err != nil {
 		panic(err)
 	}
 	var p2 []string
+	for _, h := range heldDecls {
+		var now *types.Type
+		switch h.kind {
+		case "var":
+			now = u2.Variable(h.nm)
+		case "func":
+			now = u2.Function(h.nm)
+		default:
+			now = u2.Constant(h.nm)
+		}
+		if now != h.obj {
+			p2 = append(p2, "the "+h.kind+" object handed out for "+h.nm.String()+" before the load is not the one a lookup returns after it")
+		}
+		if h.obj.Underlying == nil {
+			p2 = append(p2, "the "+h.kind+" object handed out for "+h.nm.String()+" before the load was never completed")
+		}
+	}
 	for nm, obj := range held {
 		if u2.Type(nm) != obj {
 			p2 = append(p2, "the object handed out for "+nm.String()+" before the load is not the one a lookup returns after it")
@@ -370,6 +416,14 @@ func commentDigest(u types.Universe, pkgs map[string]bool) string {
 		for _, tbl := range []map[string]*types.Type{p.Functions, p.Variables, p.Constants} {
 			for k, t := range tbl {
 				lines = append(lines, fmt.Sprintf("%s.%s decl: %q", path, k, t.CommentLines))
+			}
+		}
+	}
+	for path, p := range u {
+		if pkgs[path] {
+			lines = append(lines, fmt.Sprintf("package %s: name %q, directory known: %v", path, p.Name, c11dirOf(p) != ""))
+			if c11dirOf(p) == "" {
+				lines = append(lines, "REQUESTED PACKAGE WITHOUT DIRECTORY "+path)
 			}
 		}
 	}
